@@ -147,6 +147,25 @@ def run(chk):
             junk = framegen.rnd_bytes(rng, rng.randint(1, 20))
             lines.append('reader %s %s' % (u, ','.join(c.hex() for c in framegen.chunkings(rng, junk, 1)[-1])))
 
+    # the two record layers of C04_ssl2_reader / C04_ssh_reader: streams of SSL 2.0 ERROR records (2- and 3-byte headers, padding)
+    # and of SSH packets carrying UNIMPLEMENTED messages (any padding length), cut into chunks
+    for _ in range(n_frames):
+        recs = []
+        for _ in range(rng.randint(1, 4)):
+            body = b'\x00' + rng.choice([1, 2, 4, 6]).to_bytes(2, 'big')
+            pad = rng.choice([0, 1, 5])
+            recs.append(bytes([0x80, len(body)]) + body if rng.random() < 0.5 else
+                        bytes([((len(body) + pad) >> 8) & 0x3f, (len(body) + pad) & 0xff, pad]) + body + framegen.rnd_bytes(rng, pad))
+        for ch in framegen.chunkings(rng, b''.join(recs), 2):
+            lines.append('reader ssl2 %s' % ','.join(c.hex() for c in ch))
+        pkts = []
+        for _ in range(rng.randint(1, 4)):
+            payload = b'\x03' + framegen.rnd_bytes(rng, 4)
+            pad = rng.choice([4, 6, 7, 14, 255])
+            pkts.append((len(payload) + pad + 1).to_bytes(4, 'big') + bytes([pad]) + payload + framegen.rnd_bytes(rng, pad))
+        for ch in framegen.chunkings(rng, b''.join(pkts), 2):
+            lines.append('reader sshpkt %s' % ','.join(c.hex() for c in ch))
+
     def search(_br):
         for name, pred, replay, detail in impl_sweep(chk, impl, rng, 3):
             key = '%s/%s' % (name, pred)
@@ -176,7 +195,7 @@ def run(chk):
     chk.coverage['evaluations'] = len(lines) + chk.coverage.get('class_sweep', {}).get('evaluations', 0)
     chk.coverage['distinct_nontrivial'] = len(set(l for l, o in zip(lines, impl_out) if l.startswith('reader') and ' RUN ' in o and 'out=[]' not in o))
     chk.coverage['traces_validated_against_impl'] = len(lines)
-    chk.coverage['rule'] = ('per LV framing unit: every proper prefix (all cut positions) of composed frames, and reader loops over streams of '
+    chk.coverage['rule'] = ('per framing unit (the LV units; SSL 2.0 records and SSH packets in the reader runs): every proper prefix (all cut positions) of composed frames, and reader loops over streams of '
                             '1-4 frames cut into 1-byte, few-chunk and many-chunk deliveries, the wait target after every chunk compared '
                             'between the extracted Coq reader and a Python reader loop driving parse_mutable; junk streams as well; plus an '
                             'implementation-only sweep (all prefixes, random chunkings) over every framing-unit class reached by the '
